@@ -1,7 +1,7 @@
 """C07 — the grammar reader reconstructs exactly the grammar that was written."""
 from props.common import *
 
-MODULE = ["PestModel.Thm.C07", "PestModel.Thm.C07Full"]
+MODULE = ["PestModel.Thm.C07", "PestModel.Thm.C07Full", "PestModel.Thm.C07Pairs"]
 DRV, MODE = "drv_read", "read"
 
 
